@@ -13,6 +13,7 @@ import (
 	"crypto/rsa"
 	"encoding/hex"
 	"fmt"
+	"io"
 	"sync"
 
 	fdo "github.com/fido-device-onboard/go-fdo"
@@ -375,6 +376,38 @@ func layerA(s kex.Suite, c kex.CipherSuiteID, sizes []int) {
 	}
 }
 
+// oneByteReader answers every Read with a single byte (legal for an io.Reader).
+type oneByteReader struct{ r io.Reader }
+
+func (o oneByteReader) Read(p []byte) (int, error) {
+	if len(p) == 0 {
+		return 0, nil
+	}
+	return o.r.Read(p[:1])
+}
+
+// freshIVs: 300 messages of one session encrypted while the caller's random source answers short: every IV must be
+// new (a generator that fills only the first byte of its IV has 256 values and must repeat within 300 messages).
+func freshIVs(s kex.Suite, c kex.CipherSuiteID) {
+	owner, dev, err := establish(s, c)
+	if err != nil {
+		return
+	}
+	for dir, sess := range []kex.Session{owner, dev} {
+		for i := 0; i < 300; i++ {
+			r.Evaluations.Add(1)
+			enc, err := sess.Encrypt(oneByteReader{rand.Reader}, []byte{byte(i)})
+			if err != nil {
+				r.Violation("encrypt-fails-with-short-reading-random-source:"+c.String(), fmt.Sprintf("%s/%s: %v", s, c, err), nil)
+				return
+			}
+			wire, _ := cbor.Marshal(enc)
+			noteIVs(fmt.Sprintf("%s/%s dir%d message %d (random source answering one byte per Read)", s, c, dir, i), wire)
+		}
+	}
+	r.Distinct(fmt.Sprintf("fresh-ivs|%s|%s", s, c))
+}
+
 func classOp(op string) string {
 	if len(op) > 3 && op[:3] == "bit" {
 		return "bit"
@@ -574,14 +607,14 @@ func main() {
 	if !r.Quick() {
 		sizes = append(sizes, 200)
 	}
-	r.Rule("Layer A: 6 key exchanges x 7 cipher suites (sessions from the real Parameter/SetParameter), both directions, payload lengths {0,1,15,16,17(,200)}: EVERY bit of the protected wire object plus ~60 structural operators plus ~180 header-injection operators (every label 1..7 x IV/algorithm-derived values written into the unauthenticated header maps of the COSE_Mac0 and COSE_Encrypt0 layers) plus 30 pairs of a weakened COSE_Mac0 tag (empty, first byte, half, minus one, zeroed, plus one) with a flipped bit of the MACed payload (strip/forge COSE_Mac0, re-tag, untag, drop/resize/retype IV, drop/move/replace alg header, null/empty/truncated/extended/short ciphertext, cross-session ciphertext, plaintext substitution) delivered to the real peer Decrypt: it must fail or return exactly the sender's plaintext; IVs pairwise distinct; plaintext not on the wire. Layer B: in a real TO2 over the HTTP transport, every protected message position in both directions x {strip-mac0, retag, plaintext, cross-session, empty, truncate, one byte flip per (sampled in quick: ~24 per message; all in thorough) byte}: the run must fail with no credential and no voucher replacement. distinct = distinct (suite,length,outcome,operator) classes.")
+	r.Rule("Layer A: 6 key exchanges x 7 cipher suites (sessions from the real Parameter/SetParameter), both directions, payload lengths {0,1,15,16,17(,200)}: EVERY bit of the protected wire object plus ~60 structural operators plus ~180 header-injection operators (every label 1..7 x IV/algorithm-derived values written into the unauthenticated header maps of the COSE_Mac0 and COSE_Encrypt0 layers) plus 30 pairs of a weakened COSE_Mac0 tag (empty, first byte, half, minus one, zeroed, plus one) with a flipped bit of the MACed payload (strip/forge COSE_Mac0, re-tag, untag, drop/resize/retype IV, drop/move/replace alg header, null/empty/truncated/extended/short ciphertext, cross-session ciphertext, plaintext substitution) delivered to the real peer Decrypt: it must fail or return exactly the sender's plaintext; IVs pairwise distinct, also over 300 messages per session and direction encrypted with a random source that answers one byte per Read; plaintext not on the wire. Layer B: in a real TO2 over the HTTP transport, every protected message position in both directions x {strip-mac0, retag, plaintext, cross-session, empty, truncate, one byte flip per (sampled in quick: ~24 per message; all in thorough) byte}: the run must fail with no credential and no voucher replacement. distinct = distinct (suite,length,outcome,operator) classes.")
 	var wg sync.WaitGroup
 	sem := make(chan struct{}, 16)
 	for _, s := range suites {
 		for _, c := range ciphers {
 			wg.Add(1)
 			sem <- struct{}{}
-			go func() { defer wg.Done(); defer func() { <-sem }(); layerA(s, c, sizes) }()
+			go func() { defer wg.Done(); defer func() { <-sem }(); layerA(s, c, sizes); freshIVs(s, c) }()
 		}
 	}
 	type cfg struct {
